@@ -3,6 +3,7 @@ package wmptsim
 import (
 	"bytes"
 	"fmt"
+	"sort"
 
 	"github.com/0chain/common/core/util/wmpt"
 
@@ -56,6 +57,26 @@ func (w *world) rollback(op WOp) {
 	cp := w.cp
 	entry := "Rollback"
 	faulted := false
+	// real pebble: there is no raw key listing; what only the rolled-back commit created is taken from two
+	// reachability walks (state B minus checkpoint state A) made before the rollback
+	var onlyB [][]byte
+	if w.peb != nil && len(w.commits) > 0 {
+		get := func(k []byte) ([]byte, bool) {
+			v, err := w.peb.adapter.Get(k)
+			return v, err == nil
+		}
+		last := w.commits[len(w.commits)-1]
+		ra, ea := reachable(get, cp.root, cp.weight)
+		rb, eb := reachable(get, last.root, last.weight)
+		if ea == nil && eb == nil {
+			for k := range rb {
+				if !ra[k] {
+					onlyB = append(onlyB, []byte(k))
+				}
+			}
+			sort.Slice(onlyB, func(a, b int) bool { return bytes.Compare(onlyB[a], onlyB[b]) < 0 })
+		}
+	}
 	if op.E && w.kv != nil {
 		// the batch with which the rollback removes the nodes of the rolled-back commit fails (nothing applied); the
 		// rollback entry points report no error, so afterwards only the leftover clause is relaxed
@@ -129,6 +150,25 @@ func (w *world) rollback(op WOp) {
 				w.fail("c13.leftover", entry+":created-node-left", "after %s node %x, written only by the rolled-back commit, is still in storage", entry, k)
 				return
 			}
+		}
+	}
+	if w.peb != nil && w.v == nil {
+		// ... and stay gone when the database is closed and opened again (pebble flushes its memtable on the way)
+		if err := w.peb.restart(); err != nil {
+			w.fail("c13.leftover", "pebble-restart", "pebble failed to reopen after a clean close: %v", err)
+			return
+		}
+		w.db = w.peb.adapter
+		w.stats.Inc("probe.pebble-restarted-after-rollback")
+		for _, k := range onlyB {
+			if _, err := w.peb.adapter.Get(k); err == nil {
+				w.fail("c13.leftover", entry+":created-node-back-after-restart", "after %s and a clean restart of the database node %x, reachable only from the rolled-back commit, is in storage", entry, k)
+				return
+			}
+		}
+		w.guard("reopen after restart", func() { w.t = wmpt.New(wmpt.NewHashNode(cp.root, cp.weight), w.db) })
+		if cp.weight == 0 {
+			w.guard("reopen after restart", func() { w.t = wmpt.New(nil, w.db) })
 		}
 	}
 	w.model = map[string]refwmpt.Entry{}
